@@ -367,6 +367,16 @@ def make_case(rng, with_faults):
         {"op": "match", "rule": RULE, "input": OBJ, "type": "binary", "ret": "list", "search": "all", "only_addr": only_addr, "_main": True},
         {"op": "match", "rule": RULE, "input": OBJ, "type": "binary", "ret": "bool", "search": "first", "_main": True},
     ]
+    # (a side generator, so that every other choice of the case stays what it was before this dimension existed)
+    rng_c = random.Random(int(util.digest(list(rng.getstate()[1][:16]))[:16], 16))
+    if rng_c.random() < 0.12:
+        # how the caller uses the API: the loop idiom (the previous object dies after the next was built) and the
+        # object it still holds asked to match once more, nothing in between
+        for m in main:
+            m["hold_object"] = True
+        k_again = rng_c.randrange(len(main))
+        main.insert(k_again + 1, dict(main[k_again], rematch=True))
+        shape["caller"] = "held+rematch"
     if rng.random() < 0.08:
         # variables a tool of this kind might look at (none is read today)
         for m in main:
